@@ -189,3 +189,59 @@ def stmt_nodes(g, pred):
 
 def norm_cmp_text(e):
     return ' '.join(ast.unparse(e).split())
+
+
+# ---------------------------------------------------------------------------
+# shape of calls into the `re` module: a flag constant in a count / maxsplit slot
+RE_SIGNATURES = {
+    # name -> (positional parameter names)
+    'sub': ('pattern', 'repl', 'string', 'count', 'flags'),
+    'subn': ('pattern', 'repl', 'string', 'count', 'flags'),
+    'split': ('pattern', 'string', 'maxsplit', 'flags'),
+    'match': ('pattern', 'string', 'flags'),
+    'search': ('pattern', 'string', 'flags'),
+    'fullmatch': ('pattern', 'string', 'flags'),
+    'findall': ('pattern', 'string', 'flags'),
+    'finditer': ('pattern', 'string', 'flags'),
+    'compile': ('pattern', 'flags'),
+}
+RE_FLAG_NAMES = {'A', 'ASCII', 'DEBUG', 'I', 'IGNORECASE', 'L', 'LOCALE', 'M', 'MULTILINE', 'S', 'DOTALL', 'X', 'VERBOSE', 'U', 'UNICODE', 'NOFLAG'}
+
+
+def is_re_flag_expr(e):
+    if isinstance(e, ast.Attribute) and isinstance(e.value, ast.Name) and e.value.id == 're' and e.attr in RE_FLAG_NAMES:
+        return True
+    if isinstance(e, ast.BinOp) and isinstance(e.op, (ast.BitOr, ast.Add)):
+        return is_re_flag_expr(e.left) and is_re_flag_expr(e.right)
+    return False
+
+
+def re_call_problem(call):
+    """None, or a description when a call `re.<f>(...)` binds a flag constant to a
+    parameter that is not `flags` (classic: re.split(p, s, re.MULTILINE) sets maxsplit=8),
+    or gives count / maxsplit a non-zero constant"""
+    f = call.func
+    if not (isinstance(f, ast.Attribute) and isinstance(f.value, ast.Name) and f.value.id == 're' and f.attr in RE_SIGNATURES):
+        return None
+    sig = RE_SIGNATURES[f.attr]
+    bound = {}
+    for i, a in enumerate(call.args):
+        if isinstance(a, ast.Starred) or i >= len(sig):
+            return None
+        bound[sig[i]] = a
+    for k in call.keywords:
+        if k.arg is not None:
+            bound[k.arg] = k.value
+    for name, a in bound.items():
+        if name in ('count', 'maxsplit'):
+            if is_re_flag_expr(a):
+                return 're.%s: the flag %s is bound to `%s` (it limits the number of %s to %s instead of setting a flag)' % (
+                    f.attr, ast.unparse(a), name, 'substitutions' if name == 'count' else 'splits', 'the numeric value of the flag')
+            if isinstance(a, ast.Constant) and isinstance(a.value, int) and a.value != 0:
+                return 're.%s: %s=%d limits the number of %s' % (f.attr, name, a.value, 'substitutions' if name == 'count' else 'splits')
+    return None
+
+
+def re_calls(tree):
+    return [n for n in ast.walk(tree) if isinstance(n, ast.Call) and isinstance(n.func, ast.Attribute) and isinstance(n.func.value, ast.Name) and
+            n.func.value.id == 're' and n.func.attr in RE_SIGNATURES]
